@@ -73,6 +73,37 @@ def generation():
     return ns["outer"]
 
 
+# a name reused DEEPER inside an earlier sibling: each path step looks only at the direct children of the code reached so far
+SRC2 = '''
+def outer2():
+    def first():
+        def target():          # deep namesake, inside an EARLIER sibling
+            return "deep"
+        def only_deep(): pass
+        return target
+    def target():
+        return "direct"
+    return first, target
+'''
+ns2 = {}
+exec(compile(SRC2, "<gen2>", "exec"), ns2)
+o2 = ns2["outer2"]
+first_fn, direct_fn = o2()
+deep_fn = first_fn()
+for path, truth in ((["target"], direct_fn.__code__), (["first", "target"], deep_fn.__code__), (["first"], first_fn.__code__)):
+    leg.case(("nested-namesake", tuple(path)), True)
+    try:
+        got = get_code(o2, *path)
+    except Exception as e:
+        leg.violation(("nested-namesake", tuple(path)), f"get_code(outer2, {path}) raised {e!r}"); continue
+    if got is not truth:
+        leg.violation(("nested-namesake", tuple(path)), f"get_code(outer2, {path}) is {got!r}, the function that name denotes there runs {truth!r}")
+leg.case(("nested-namesake", "only-deeper"), True)
+try:
+    get_code(o2, "only_deep"); leg.violation(("nested-namesake", "only-deeper"), "a name that exists only at a deeper level resolved instead of ValueError")
+except ValueError:
+    pass
+
 for order in (0, 1):
     g1, g2 = generation(), generation()
     assert g1.__code__ == g2.__code__ and g1.__code__ is not g2.__code__
